@@ -2,6 +2,8 @@ import SpoxModel.Lemmas.Scope
 import SpoxModel.Lemmas.Named
 import SpoxModel.Lemmas.BuildIR
 import SpoxModel.Lemmas.InlineCheck
+import SpoxModel.Model.InternalReq
+import SpoxModel.Generated.IdentityTypes
 import SpoxModel.Model.Naming
 import SpoxModel.Generated.BuildFlags
 /-!
@@ -345,6 +347,48 @@ theorem inline_rank_or_const_mismatch_refused (tbl : DtypeTable) (e e' : Nat) (a
     rcases hbad with hb | ⟨j, n, m, h1, h2, hne⟩
     · exact absurd h.2.1 hb
     · exact absurd (h.2.2 j n m h1 h2) hne
+
+/-! ### spox's own Identity nodes are valid at the model's opset (`_Introduce.opset_req`)
+
+`InternalReq.introReq` is the requirement of the internal forwarding operator (tie H: the real `opset_req` of
+`intros(...)` nodes for every combination of value kinds up to length 3, every run); the versions from which
+ONNX's `Identity` accepts tensors / sequences / optionals are generated from `onnx.defs` on every run (tie G). -/
+
+open InternalReq in
+/-- If `Identity` takes tensors and sequences from some version ≤ 14 on and optionals from some version ≤ 16
+    on, then at ANY model opset that meets the internal operator's requirement every forwarded value — whatever
+    mix of tensors, sequences, optionals, untyped values — is accepted by the `Identity` node it is built into. -/
+theorem intro_identity_accepts (mt ms mo : Nat) (ht : mt ≤ 14) (hs : ms ≤ 14) (ho : mo ≤ 16)
+    (ks : List Kind) (k : Kind) (hk : k ∈ ks) (opset : Nat) (hreq : introReq ks ≤ opset) :
+    identityMin mt ms mo k ≤ opset := by
+  have hge : 14 ≤ introReq ks := by unfold introReq; split <;> omega
+  cases k with
+  | optional =>
+    have hany : ks.any (· == Kind.optional) = true := List.any_eq_true.mpr ⟨.optional, hk, by simp⟩
+    have h16 : introReq ks = 16 := by simp [introReq, hany]
+    simp only [identityMin]; omega
+  | untyped => simp only [identityMin]; omega
+  | tensor => simp only [identityMin]; omega
+  | seq => simp only [identityMin]; omega
+
+open Generated.IdentityTypes in
+/-- generated obligation (tie G): the installed ONNX's `Identity` meets those bounds -/
+theorem generated_identity_versions_ok : minTensor ≤ 14 ∧ minSeq ≤ 14 ∧ minOptional ≤ 16 := by decide
+
+open InternalReq Generated.IdentityTypes in
+/-- **The Identity nodes spox emits for requested outputs / `intros` are valid for every forwarded value**, at
+    every model opset ≥ the operator's own requirement (the model's opset is the maximum of all requirements). -/
+theorem intro_identity_valid (ks : List Kind) (k : Kind) (hk : k ∈ ks) (opset : Nat)
+    (hreq : introReq ks ≤ opset) : identityMin minTensor minSeq minOptional k ≤ opset :=
+  intro_identity_accepts _ _ _ generated_identity_versions_ok.1 generated_identity_versions_ok.2.1
+    generated_identity_versions_ok.2.2 ks k hk opset hreq
+
+open Generated.IdentityTypes in
+/-- the code before fix 8b10170 asked for opset 14 whatever the values: not enough for an optional -/
+theorem intro_req_14_counterexample : ¬ (minOptional ≤ 14) := by decide
+
+open InternalReq in
+example : introReq [.tensor, .optional] = 16 ∧ introReq [.tensor, .seq, .untyped] = 14 ∧ introReq [] = 14 := by decide
 
 /-! non-vacuity: a symbolic / anonymous / unknown-rank argument IS accepted (compatibility, not equality) -/
 open InlineCheck Types in
